@@ -12,6 +12,11 @@ Per generated project (vf/gen/gen_c03.py):
   4. the dumper log (argv bytes, DUMP_* environment, stdin) is compared with the plan's expectation;
      response files are decoded by vf/ref/buildargv.py, which is calibrated per run against the real
      gcc driver on the very texts that were decoded;
+  4b. scoping: add_project_arguments / add_project_link_arguments / add_global_arguments / add_global_link_arguments are
+     called for both machines (native: true / false / omitted) with distinct tagged lists, in the top project, in an
+     ordinary subproject and in a subproject built for the build machine; targets of both machines exist in one
+     non-cross build.  Every compile and link line must carry exactly the lists of its own machine and project, per
+     language (scope_check: sentinel or string of a sibling scope in the argv = that scope's list was delivered);
   5. the monitor records localise a loss: element lines read back by mini-ninja + /bin/sh (or buildargv),
      quote contracts, pickled ExecutableSerialisation vs. input.
 A configure-time refusal (newline: "Ninja does not support newlines") is `rejected`, never a violation.
@@ -37,6 +42,8 @@ from vf.ref import buildargv as ba
 RAW_NAMES = {'DEPFILE_UNQUOTED', 'DESC', 'pool', 'description', 'targetdep', 'dyndep'}
 FAKE_TOOLS = ('cc', 'gcc', 'c++', 'g++', 'ar', 'gcc-ar')
 PROJECT_TIMEOUT = 420
+# one root cause whatever the command kind / wrapping mode (decided at configure time): see known_findings.d/C03.json
+KNOWN_SUBPROJECT_ORDER = 'scope:global-arguments:subproject-configured-after-build-machine-subproject-gets-build-machine-lists'
 
 
 # ------------------------------------------------------------------------------------------- helpers
@@ -540,11 +547,101 @@ def _run_project(plan: dict, root: str, pdir: str, out: Outcome) -> None:
             out.count('inconclusive:buildargv-miscalibrated')
             out.inconclusive.append({'why': 'buildargv disagrees with the real gcc driver', 'detail': det, 'plan': plan_params(plan)})
 
+    # every position that belongs to a SCOPED family (project/global (link) arguments: per machine, per project):
+    # its sentinels and every string it was given, for whatever language
+    scoped: T.Dict[str, dict] = {}
+    for grp_ in (plan['compile'], plan['link']):
+        for sls_ in grp_.values():
+            for o_ in sls_:
+                if o_['pos'] in gen.SCOPE:
+                    scoped.setdefault(o_['pos'], {'b': o_['b'], 'e': o_['e'], 'args': set()})['args'].update(o_['args'])
+    for pos_, lst_ in (plan.get('scope_all') or {}).items():
+        if pos_ in scoped:
+            scoped[pos_]['args'].update(a for a in lst_ if a not in (scoped[pos_]['b'], scoped[pos_]['e']))
+
+    owners: T.Dict[str, T.Set[str]] = {}
+    for grp_ in (plan['compile'], plan['link']):
+        for sls_ in grp_.values():
+            for o_ in sls_:
+                for a in o_['args']:
+                    owners.setdefault(a, set()).add(o_['pos'])
+    for pos_, d_ in scoped.items():
+        for a in d_['args']:
+            owners.setdefault(a, set()).add(pos_)
+    n_owners = {a: len(v) for a, v in owners.items()}
+
+    def scope_check(kind: str, target: str, outname: str, slots: T.List[dict], argv: T.List[str], mode: str) -> T.Set[str]:
+        """A command carries the project/global arguments of ITS OWN machine and project only.  Evidence that the list of
+        another scope of the same function was delivered: that list's sentinel, or one of its strings more often than this
+        command's own positions specify it.  Returns the families reported (their slice comparison would only repeat it)."""
+        import collections
+        have = collections.Counter(argv)
+        want_here = collections.Counter(a for sl in slots for a in sl['args'])
+        own = {sl['pos']: sl for sl in slots}
+        fam_own = {gen.SCOPE[p_][0]: p_ for p_ in own if p_ in gen.SCOPE}
+        if not fam_own:
+            return set()
+        out.count('monitor:scope_edge_checked')
+        machines = {gen.SCOPE[p_][1] for p_ in fam_own.values()}
+        projects = {gen.SCOPE[p_][2] for p_ in fam_own.values()} - {'*'}
+        if 'build' in machines:
+            out.count('monitor:scope_native_true_target_edge')
+        if 'host' in machines and 'glob_args_nat' in scoped:
+            out.count('monitor:scope_native_false_target_edge')
+        if projects - {'top'}:
+            out.count('monitor:scope_subproject_target_edge')
+        if 'default' in machines:
+            out.count('monitor:scope_build_machine_subproject_edge')
+        reported: T.Set[str] = set()
+        for q in sorted(scoped):
+            fam, mach, proj = gen.SCOPE[q]
+            if q in own or fam in reported:
+                continue
+            d = scoped[q]
+            ev = [x for x in (d['b'], d['e']) if have.get(x, 0)]
+            # (a string that several lists of this project contain proves nothing about WHICH list was delivered: left to
+            # the whole-argv accounting below)
+            ev += [a for a in sorted(d['args']) if n_owners.get(a, 0) == 1 and have.get(a, 0) > want_here.get(a, 0)]
+            if not ev:
+                continue
+            mine = fam_own.get(fam)
+            if mine is None:
+                rel = 'list-of-another-function'
+            elif gen.SCOPE[mine][2] != proj:
+                rel = 'other-project'
+            else:
+                rel = 'other-machine'
+            own_missing = mine is not None and not have.get(own[mine]['b'], 0)
+            reported.add(fam)
+            what = f'{rel}-args-delivered' + ('+own-missing' if own_missing else '')
+            # one narrow, separately named case: a host-machine target of an ordinary subproject that was configured AFTER
+            # a build-machine subproject receives, instead of the global arguments of the host machine, exactly the
+            # complete global list of the build machine (for its language)
+            order = plan.get('sub_order') or []
+            if mine is not None and rel == 'other-machine' and own_missing and gen.SCOPE[mine][1:] == ('host', '*') and mach == 'build' \
+                    and projects == {'sp'} and 'sp' in order and 'spn' in order and order.index('spn') < order.index('sp') \
+                    and have.get(d['b'], 0) == 1 and have.get(d['e'], 0) == 1 and argv.index(d['b']) < argv.index(d['e']):
+                lang_ = own[mine].get('lang')
+                full = next((o_['args'] for grp_ in (plan['compile'], plan['link']) for sls_ in grp_.values() for o_ in sls_
+                             if o_['pos'] == q and o_.get('lang') == lang_), None)
+                if full is not None and argv[argv.index(d['b']) + 1:argv.index(d['e'])] == full \
+                        and not any(have.get(a, 0) > want_here.get(a, 0) for a in own[mine]['args'] if n_owners.get(a, 0) == 1):
+                    what = KNOWN_SUBPROJECT_ORDER
+            _violate(out, plan, what if what == KNOWN_SUBPROJECT_ORDER else f'{kind}:{mode}:scope:{fam}:{what}',
+                     {'kind': kind, 'mode': mode, 'target': target, 'edge_out': outname,
+                      'own_position': mine, 'own_scope': gen.SCOPE.get(mine or '', None), 'own_expected': own[mine]['args'][:6] if mine else None,
+                      'delivered_position': q, 'delivered_scope': [fam, mach, proj], 'evidence_in_argv': ev[:6],
+                      'argv_tail': argv[-24:]})
+        return reported
+
     def check_slots(kind: str, target: str, outname: str, slots: T.List[dict]) -> None:
         ent = decoded.get(outname)
+        scope_reported: T.Set[str] = scope_check(kind, target, outname, slots, ent[0], ent[1]) if ent is not None else set()
         for sl in slots:
             out.count('monitor:argv_compared')
             out.count('monitor:%s_slot_compared' % kind)
+            if gen.SCOPE.get(sl['pos'], ('',))[0] in scope_reported:
+                continue
             mode = ent[1] if ent else ('rsp' if plan['rsp'] else 'plain')
             out.cases.append(common.digest([sl['pos'], mode, sl['args']]))
             locus = {'pos': sl['pos'], 'kind': kind, 'mode': mode, 'target': target, 'edge_out': outname}
@@ -616,11 +713,15 @@ def _run_project(plan: dict, root: str, pdir: str, out: Outcome) -> None:
 
     all_my_args = {a for grp in (plan['compile'], plan['link']) for sls in grp.values() for o_ in sls for a in o_['args']
                    if a not in ('-D', '-U', '-isystem')}
+    # ... and the strings given for a language that none of this project's targets of that scope happens to use
+    all_my_args |= {a for d_ in scoped.values() for a in d_['args'] if a not in ('-D', '-U', '-isystem')}
     objname = {'e1': 'e1.p/main.c.o', 's1': 'libs1.a.p/lib.c.o', 'e2': 'e2.p/main.c.o', 'x1': 'x1.p/main.cpp.o'}
+    objname.update(plan.get('objname') or {})
+    linkout = plan.get('linkout') or {}
     for target, slots in plan['compile'].items():
         check_slots('compile', target, objname[target], slots)
     for target, slots in plan['link'].items():
-        check_slots('link', target, target, slots)
+        check_slots('link', target, linkout.get(target, target), slots)
 
     # every edge must have run successfully: a failure nobody above accounted for is still a command that did not
     # receive what the build definition specified (e.g. the shell refused the line)
@@ -908,7 +1009,9 @@ def main() -> int:
     if done < len(order):
         chk.count('projects_skipped_time_budget', len(order) - done)
 
-    for k in ('monitor:whole_argv_accounting', 'monitor:env_append_prepend_onto_outer_compared', 'monitor:test_repeat_compared', 'monitor:test_args_compared', 'monitor:env_form_string_or_list', 'monitor:env_form_dict_or_set', 'monitor:pickle_collision_group_compared', 'monitor:exe_rsp_file_checked', 'monitor:argv_compared', 'monitor:test_argv_compared', 'monitor:elem_roundtrip', 'monitor:exe_pickle_checked',
+    for k in ('monitor:scope_edge_checked', 'monitor:scope_native_true_target_edge', 'monitor:scope_native_false_target_edge',
+              'monitor:scope_subproject_target_edge', 'monitor:scope_build_machine_subproject_edge',
+              'monitor:whole_argv_accounting', 'monitor:env_append_prepend_onto_outer_compared', 'monitor:test_repeat_compared', 'monitor:test_args_compared', 'monitor:env_form_string_or_list', 'monitor:env_form_dict_or_set', 'monitor:pickle_collision_group_compared', 'monitor:exe_rsp_file_checked', 'monitor:argv_compared', 'monitor:test_argv_compared', 'monitor:elem_roundtrip', 'monitor:exe_pickle_checked',
               'monitor:exe_cmdline_checked', 'monitor:rsp_decoded', 'monitor:compile_slot_compared', 'monitor:link_slot_compared',
               'monitor:env_compared', 'monitor:stdin_compared', 'monitor:contract_quote_arg', 'monitor:contract_rsp_quote',
               'monitor:contract_ninja_quote', 'monitor:buildargv_calibrated_agree', 'monitor:literal_calibration',
@@ -935,7 +1038,13 @@ def main() -> int:
                      'ninja\'s own $-unescaping is mini-ninja\'s (trusted base); every other layer is the real one',
                      'response files are read with vf/ref/buildargv.py, calibrated per run against the real gcc driver',
                      'strings with NUL, a lone CR, exactly `&&` outside the deliberate separators, or accidental @WORD@ shapes are not generated',
-                     'bare compile/link arguments avoid the prefixes/suffixes C13\'s list handling reorders (-I -L -l -D -U, *.a, *.so)'],
+                     'bare compile/link arguments avoid the prefixes/suffixes C13\'s list handling reorders (-I -L -l -D -U, *.a, *.so)',
+                     'scoping (Reference manual: add_global_arguments `native:`, add_project_arguments "only used for the current '
+                     'project", target `native:`, subproject `native:`): in a non-cross build a target declared native: true '
+                     'receives the lists given with native: true, every other target those given with native: false / omitted; '
+                     'project (link) arguments reach the targets of the project that gave them only; a subproject built for the '
+                     'build machine receives the global lists of the build machine; the c_args / c_link_args options reach the '
+                     'C targets of both machines (Builtin-options: "in native builds ... the unprefixed option alone will suffice")'],
         exhaustive=False,
         extra={'matrix_position_x_class': {p: dict(sorted(cov.get(p, {}).items())) for p in gen.ALL_POS},
                'matrix_position_x_mode': modes, 'rejected_newline_by_position': rejected,
